@@ -402,7 +402,12 @@ class Project(MessageHandler):
         for task in self.tasks:
             if not task.leaf():
                 continue
-            deps = task.get("depends", scIdx) or []
+            # Own dependencies plus those inherited from enclosing containers
+            task_scenario = task.data[scIdx] if getattr(task, "data", None) else None
+            if task_scenario is not None and hasattr(task_scenario, "getAllDependencies"):
+                deps = task_scenario.getAllDependencies()
+            else:
+                deps = task.get("depends", scIdx) or []
             for dep in deps:
                 if isinstance(dep, dict):
                     pred = dep.get("task")
@@ -420,8 +425,13 @@ class Project(MessageHandler):
                         # derives END from predecessor's START, so this task is NOT terminal
                         has_onstart_dep.add(task.fullId if hasattr(task, "fullId") else None)
                     else:
-                        # Normal finish-to-start: predecessor has a successor
-                        has_fs_successor.add(pred.fullId)
+                        # Normal finish-to-start: predecessor has a successor. A dependency on a
+                        # container is a dependency on everything inside it.
+                        pending = [pred]
+                        while pending:
+                            node = pending.pop()
+                            has_fs_successor.add(node.fullId)
+                            pending.extend(getattr(node, "children", []) or [])
 
         def propagate_end_to_children(task: Any, container_end: Optional[Any]) -> None:
             """Recursively propagate end constraint down the task tree."""
